@@ -58,3 +58,33 @@ package bytetree
 //@   at call node).doUpdate assert old_subtree_on_the_old_remainder: len(newNode.edges) >= 1 && newNode.edges[0].target == old(e.target) && len(newNode.edges[0].label) == old(len(e.label)) - splitOn && e.target == newNode && len(e.label) == splitOn
 //@   at call node).doUpdate assert updates_the_new_leaf: callarg0 == newLeaf && callarg2 == fullKey
 //@   at call node).doUpdate assert leaf_carries_the_full_key: obj(newLeaf.key) == obj(fullKey) && len(newLeaf.key) == len(fullKey) && (forall j in 0..len(fullKey) :: newLeaf.key[j] == fullKey[j])
+
+// C03/C01 (a stored row is merged with the memstore row of the SAME key): Remove marks a node as removed, and returns
+// its data, only for an edge whose whole label equals the whole remaining key - never for a key that is a strict prefix
+// of a label or that merely shares a prefix with it.
+//@ func (*node).wasRemovedFor
+//@   modifies nothing
+//@   loop 0 modifies nothing
+//@ func (*Tree).Remove
+//@   requires bt != nil
+//@   modifies *
+//@   at call node).doRemoveFor assert removes_only_an_exact_match: i == keyLength && keyLength == labelLength && keyLength == len(key) && labelLength == len(edge.label) && (forall j in 0..keyLength :: edge.label[j] == key[j])
+//@   loop 2 modifies nothing
+//@   loop 2 invariant bounds: 0 <= i && i <= keyLength && i <= labelLength && keyLength == len(key) && labelLength == len(edge.label)
+//@   loop 2 invariant matched: forall j in 0..i :: edge.label[j] == key[j]
+
+// C01/C03 (one node per key, found again by Remove): doUpdate updates an existing node only through an edge whose whole
+// label equals the whole remaining key; it gives up on the edges of a node - and hangs a new edge there - only after
+// every edge it passed over shares nothing with the key: a non-empty label whose first byte differs from the key's
+// (an edge with an empty label is the prefix of every non-empty key and must be descended into, the way Remove does).
+//@ func (*Tree).doUpdate
+//@   requires bt != nil
+//@   modifies *
+//@   at call node).doUpdate inscope assert updates_only_an_exact_match: i == keyLength && keyLength == labelLength && keyLength == len(key) && labelLength == len(edge.label) && (forall j in 0..keyLength :: edge.label[j] == key[j])
+//@   at call edge).split assert splits_at_the_first_difference: callarg2 == i && 0 < i && i <= len(key) && i <= len(edge.label) && callarg3 == fullKey && callarg4 == key && (forall j in 0..i :: edge.label[j] == key[j])
+//@   loop 1 modifies nothing
+//@   loop 1 invariant passed_over_edges_share_nothing: forall q in 0..$i :: len(n.edges[q].label) > 0 && (len(key) == 0 || n.edges[q].label[0] != key[0])
+//@   loop 1 invariant bounds: 0 <= $i && $i <= len(n.edges)
+//@   loop 2 modifies nothing
+//@   loop 2 invariant bounds: 0 <= i && i <= keyLength && i <= labelLength && keyLength == len(key) && labelLength == len(edge.label)
+//@   loop 2 invariant matched: forall j in 0..i :: edge.label[j] == key[j]
